@@ -280,8 +280,11 @@ def plan_restart(w: World, op: dict) -> Plan:
     for m in mt.root.iter_pre():
         if m.kind not in kinds:
             kinds.append(m.kind)
-    if op.get("key_map") == "custom" and (flavour == "fs" or any(
-            flavour_of(m.data) == "f" for m in mt.root.iter_pre())):
+    has_fs_data = any(flavour_of(m.data) == "f" for m in mt.root.iter_pre())
+    if (op.get("key_map") == "custom" and (flavour == "fs" or has_fs_data)) or (
+            has_fs_data and flavour != "fs" and op.get("key_map", "default") != "off"):
+        # the FileSystemEntry field names n/s/m/d collide with the short keys of
+        # the standard key maps (which is why FileSystemTree clears its key map)
         return Plan(EXCLUDED, why="custom key map colliding with the FileSystemTree mapper keys")
     kw, exp_k, exp_v = _effective_maps(w, flavour, cls, op.get("key_map", "default"),
                                        op.get("value_map", "default"), kinds)
